@@ -1,4 +1,5 @@
-import DoitModel.Proofs.C09Ord3
+import DoitModel.Proofs.C09OrdF
+import DoitModel.Proofs.RunMonFast
 /-! # C09 — from the order of terminal reports to the monitor's closure graph: a task with a terminal report lies on
     no cycle of `edgesAt`; at a normal end every member of `closureOf` has a terminal report -/
 namespace DoitModel.Run
@@ -134,14 +135,55 @@ theorem calcG_calcsAt {σ : Name → RS} {tr : List Ev} {nTasks : Nat} (hsat : C
   | base h => exact calcsAt_base _ _ _ h
   | res _ hg hc ih => exact hsat n _ ih (hgood _ hg) _ hc
 
-/-- the first three parts of `edgesAt` -/
+/-- the first three parts of `edgesAtGood` (the graph without the deliveries of failed calc_deps; `depsAt`, `ranFirst`) -/
 def stageAt (inp : RunInput) (nTasks : Nat) (tr : List Ev) (t : Name) : List Name :=
   inp.taskDep t ++ calcsAt inp tr nTasks (inp.calcDep t) ++
     (((calcsAt inp tr nTasks (inp.calcDep t)).filter (finishedIn tr)).flatMap fun c =>
       (inp.calcRes c).tasks ++ (inp.calcRes c).files)
 
+/-- the first three parts of `edgesAt` -/
+def stageAtF (inp : RunInput) (nTasks : Nat) (tr : List Ev) (t : Name) : List Name :=
+  inp.taskDep t ++ calcsRun inp nTasks tr t ++ deliveredAt inp nTasks tr t
+
 theorem edgesAt_eq (nTasks : Nat) (tr : List Ev) (t : Name) :
-    edgesAt inp nTasks tr t = stageAt inp nTasks tr t ++ (if ranFirst inp nTasks tr t then inp.setup t else []) := rfl
+    edgesAt inp nTasks tr t = stageAtF inp nTasks tr t ++ (if ranFirst inp nTasks tr t then inp.setup t else []) := rfl
+
+/-- what the monitor's `resAt` reads off the trace, in terms of the statuses: the result of an executed / up-to-date
+    calc task, or the values of one that failed and satisfies `P`, or nothing -/
+def ResOK (inp : RunInput) (σ : Name → RS) (P : Name → Prop) (tr : List Ev) : Prop :=
+  ∀ c, (resAt inp tr c = inp.calcRes c ∧ (σ c).good = true) ∨
+    (resAt inp tr c = inp.calcResFail c ∧ σ c = .fail ∧ P c) ∨
+    ((resAt inp tr c).calcs = [] ∧ (resAt inp tr c).tasks = [] ∧ (resAt inp tr c).files = [])
+
+theorem calcsAtF_calcH {σ : Name → RS} {P : Name → Prop} {tr : List Ev} {n : Name} (hres : ResOK inp σ P tr) :
+    ∀ (k : Nat) (cs : List Name), (∀ c ∈ cs, CalcH inp σ P n c) → ∀ c ∈ calcsAtF inp tr k cs, CalcH inp σ P n c := by
+  intro k
+  induction k with
+  | zero => intro cs h c hc; exact h c hc
+  | succ k ih =>
+    intro cs h c hc
+    simp only [calcsAtF] at hc
+    refine ih _ ?_ c hc
+    intro y hy
+    rcases mem_addNew9.mp hy with a | a
+    · exact h y a
+    · obtain ⟨p, hp, hyp⟩ := List.mem_flatMap.mp a
+      rcases hres p with ⟨e, g⟩ | ⟨e, f, hP⟩ | ⟨e, _, _⟩
+      · rw [e] at hyp; exact .res (h p hp) g hyp
+      · rw [e] at hyp; exact .resF (h p hp) f hP hyp
+      · rw [e] at hyp; cases hyp
+
+theorem stageAtF_stageH {σ : Name → RS} {P : Name → Prop} {tr : List Ev} {nTasks : Nat} {n d : Name}
+    (hres : ResOK inp σ P tr) (h : d ∈ stageAtF inp nTasks tr n) : StageH inp σ P n d := by
+  have hc := calcsAtF_calcH (inp := inp) (n := n) hres nTasks (inp.calcDep n) (fun c hc => .base hc)
+  simp only [stageAtF, calcsRun, deliveredAt, calcsAtQ_eq, List.mem_append, List.mem_flatMap] at h
+  rcases h with (a | a) | ⟨p, hp, hd⟩
+  · exact Or.inl a
+  · exact Or.inr (Or.inl (hc d a))
+  · rcases hres p with ⟨e, g⟩ | ⟨e, f, hP⟩ | ⟨_, e1, e2⟩
+    · rw [e] at hd; exact Or.inr (Or.inr ⟨p, hc p hp, Or.inl ⟨g, hd⟩⟩)
+    · rw [e] at hd; exact Or.inr (Or.inr ⟨p, hc p hp, Or.inr ⟨f, hP, hd⟩⟩)
+    · rw [e1, e2] at hd; rcases hd with hd | hd <;> cases hd
 
 theorem stageAt_stageG {σ : Name → RS} {tr : List Ev} {nTasks : Nat} {n d : Name}
     (hfin : ∀ x, finishedIn tr x = true → (σ x).good = true) (h : d ∈ stageAt inp nTasks tr n) :
@@ -173,96 +215,190 @@ theorem ranFirst_runFirstG {σ : Name → RS} {tr : List Ev} {nTasks : Nat} {n :
   intro x hx
   exact hfin x (h4 x (stageG_stageAt hsat hgood hx))
 
+/-! ### the invariants of a reachable state that the monitor's graph is read against -/
+
+/-- `InvT` + `InvTF` (order of the terminal reports, along failed deliveries too) + the C08 invariant `InvDen` (a failed
+    task has a start event iff its derived outcome is a failure during its execution) -/
+structure CtxC (inp : RunInput) (s : Sys) : Prop where
+  hT : InvT inp s
+  hTF : InvTF inp (Dyn.SF inp) s
+  h2 : Inv2 inp s
+  h3 : Inv3 inp s
+  hG : InvG inp s
+  hD : Dyn.InvDen inp s
+
+theorem reach_ctxC {s : Sys} (h : Reach inp s) : CtxC inp s :=
+  ⟨reach_invT h, reach_invTF h, reach_inv2 h, reach_inv3 h, reach_invG h, Dyn.reach_invDen h⟩
+
+theorem preach_ctxC {s : Sys} (h : PReach inp s) : CtxC inp s :=
+  ⟨preach_invT h, preach_invTF h, (preach_inv h).1, (preach_inv h).2, preach_invG h, Dyn.preach_invDen h⟩
+
+/-- a `failure` report of `c` means the status of `c` is `fail` -/
+theorem failure_fail {s : Sys} (c : CtxC inp s) {x : Name} {k : FailKind} (he : Ev.failure x k ∈ s.events) :
+    stOf s x = .fail := by
+  have hfin : (stOf s x).finished = true := by
+    cases hf : (stOf s x).finished with
+    | true => rfl
+    | false =>
+      have h0 := fstTerm_none_of_cTerm (c.h3.t x hf)
+      obtain ⟨b, hb⟩ := fstTerm_some_of_mem he (show Ev.isTerminalOf x (Ev.failure x k) = true by simp [Ev.isTerminalOf])
+      rw [h0] at hb; cases hb
+  obtain ⟨d, hd, hrs⟩ := c.hD.fin x hfin
+  have hk := (c.hD.rep x).2.2.2 k he
+  have e : d = .fail k := hd.functional hk
+  rw [← hrs, e]; rfl
+
+theorem failedRunIn_trace {s : Sys} (c : CtxC inp s) {x : Name} (h : failedRunIn (trace inp s) x = true) :
+    stOf s x = .fail ∧ Dyn.SF inp x := by
+  unfold failedRunIn trace at h
+  simp only [Bool.and_eq_true, List.any_eq_true, List.mem_reverse, List.mem_filter] at h
+  obtain ⟨⟨e1, ⟨he1, _⟩, hs⟩, ⟨e2, ⟨he2, _⟩, hf⟩⟩ := h
+  have hfail : stOf s x = .fail := by
+    cases e2 <;> simp [Ev.isFailRepOf] at hf
+    subst hf; exact failure_fail c he2
+  have hst : started s x = true := by
+    unfold started
+    rw [List.any_eq_true]
+    refine ⟨e1, he1, ?_⟩
+    cases e1 <;> simp [Ev.isStartOf] at hs ⊢
+    exact hs
+  exact ⟨hfail, (c.hD.started_iff c.h3 x hfail).mp hst⟩
+
+theorem resOK_trace {s : Sys} (c : CtxC inp s) : ResOK inp (stOf s) (Dyn.SF inp) (trace inp s) := by
+  intro x
+  unfold resAt
+  by_cases h1 : finishedIn (trace inp s) x = true
+  · exact Or.inl ⟨by simp [h1], finishedIn_good c.hT h1⟩
+  · by_cases h2 : failedRunIn (trace inp s) x = true
+    · exact Or.inr (Or.inl ⟨by simp [h1, h2], failedRunIn_trace c h2⟩)
+    · exact Or.inr (Or.inr (by simp [h1, h2]))
+
+/-- the work-list closure stays inside every set that contains its start and is closed under `succ` -/
+theorem closureGo_closed {succ : Name → List Name} (P : Name → Prop) (hstep : ∀ x, P x → ∀ y ∈ succ x, P y) :
+    ∀ (fuel : Nat) (todo acc : List Name), (∀ x ∈ todo, P x) → (∀ x ∈ acc, P x) →
+      ∀ x ∈ closureGo succ fuel todo acc, P x := by
+  intro fuel
+  induction fuel with
+  | zero => intro todo acc _ h x hx; simp only [closureGo] at hx; exact h x hx
+  | succ k ih =>
+    intro todo acc ht h x hx
+    cases todo with
+    | nil => simp only [closureGo] at hx; exact h x hx
+    | cons t todo =>
+      simp only [closureGo] at hx
+      have hnew : ∀ y ∈ (addNew [] (succ t)).filter (fun d => d ∉ acc), P y := by
+        intro y hy
+        have hy' := (List.mem_filter.mp hy).1
+        rcases mem_addNew9.mp hy' with e | e
+        · cases e
+        · exact hstep t (ht t (by simp)) y e
+      refine ih _ _ ?_ ?_ x hx
+      · intro y hy
+        rcases List.mem_append.mp hy with e | e
+        · exact ht y (by simp [e])
+        · exact hnew y e
+      · intro y hy
+        rcases List.mem_append.mp hy with e | e
+        · exact h y e
+        · exact hnew y e
+
 /-! ### the core: an edge of the closure graph leads to an older terminal report -/
 
-theorem edge_older {s : Sys} (hT : InvT inp s) (h2 : Inv2 inp s) {nTasks : Nat}
+theorem edge_older {s : Sys} (c : CtxC inp s) {nTasks : Nat}
     (hsat : CalcsSat inp nTasks (trace inp s)) {t : Name} {a : Nat} (ha : fstTerm s.events t = some a) :
     ∀ d ∈ edgesAt inp nTasks (trace inp s) t, ∃ b, fstTerm s.events d = some b ∧ b < a := by
   intro d hd
   rw [edgesAt_eq] at hd
   rcases List.mem_append.mp hd with x | x
-  · exact hT.g1 t a ha d (stageAt_stageG (fun y hy => finishedIn_good hT hy) x)
+  · exact c.hTF t a ha d (stageAtF_stageH (resOK_trace c) x)
   · split at x
     · rename_i hrf
-      exact hT.g2 t a ha
-        (ranFirst_runFirstG hsat (fun y hy => finishedIn_good hT hy) (fun y hy => good_finishedIn h2 hy) hrf) d x
+      exact c.hT.g2 t a ha
+        (ranFirst_runFirstG hsat (fun y hy => finishedIn_good c.hT hy) (fun y hy => good_finishedIn c.h2 hy) hrf) d x
     · cases x
 
 /-- a task with a terminal report is on no cycle of the closure graph -/
-theorem reported_not_onCycle {s : Sys} (hT : InvT inp s) (h2 : Inv2 inp s) {nTasks : Nat}
+theorem reported_not_onCycle {s : Sys} (c : CtxC inp s) {nTasks : Nat}
     (hsat : CalcsSat inp nTasks (trace inp s)) {t : Name} {a : Nat} (ha : fstTerm s.events t = some a) :
     onCycle inp nTasks (trace inp s) t = false := by
   cases hc : onCycle inp nTasks (trace inp s) t with
   | false => rfl
   | true =>
     exfalso
-    unfold onCycle at hc
+    unfold onCycle onCycleOf at hc
     simp only [decide_eq_true_eq] at hc
-    have := reachIter_closed (succ := edgesAt inp nTasks (trace inp s))
+    have hstart : ∀ x ∈ addNew [] (edgesAt inp nTasks (trace inp s) t),
+        ∃ b, fstTerm s.events x = some b ∧ b < a := fun x hx => by
+      rcases mem_addNew9.mp hx with e | e
+      · cases e
+      · exact edge_older c hsat ha x e
+    have := closureGo_closed (succ := edgesAt inp nTasks (trace inp s))
       (fun x => ∃ b, fstTerm s.events x = some b ∧ b < a)
       (fun x ⟨b, hb, hlt⟩ y hy => by
-        obtain ⟨b', hb', hlt'⟩ := edge_older hT h2 hsat hb y hy
+        obtain ⟨b', hb', hlt'⟩ := edge_older c hsat hb y hy
         exact ⟨b', hb', by omega⟩)
-      nTasks _ (fun x hx => by
-        rcases mem_addNew9.mp hx with e | e
-        · cases e
-        · exact edge_older hT h2 hsat ha x e) t hc
+      _ _ _ hstart hstart t hc
     obtain ⟨b, hb, hlt⟩ := this
     rw [ha] at hb; cases hb; omega
 
 /-- the successors of a reported task are reported -/
-theorem reported_closed {s : Sys} (hT : InvT inp s) (h2 : Inv2 inp s) {nTasks : Nat}
+theorem reported_closed {s : Sys} (c : CtxC inp s) {nTasks : Nat}
     (hsat : CalcsSat inp nTasks (trace inp s)) :
     ∀ x, (∃ a, fstTerm s.events x = some a) → ∀ y ∈ edgesAt inp nTasks (trace inp s) x,
       ∃ a, fstTerm s.events y = some a := by
   rintro x ⟨a, ha⟩ y hy
-  obtain ⟨b, hb, _⟩ := edge_older hT h2 hsat ha y hy
+  obtain ⟨b, hb, _⟩ := edge_older c hsat ha y hy
   exact ⟨b, hb⟩
 
 /-- if every selected task is reported, every member of the monitor's closure is -/
-theorem closure_reported {s : Sys} (hT : InvT inp s) (h2 : Inv2 inp s) {nTasks : Nat}
+theorem closure_reported {s : Sys} (c : CtxC inp s) {nTasks : Nat}
     (hsat : CalcsSat inp nTasks (trace inp s)) (hsel : ∀ t ∈ inp.sel, ∃ a, fstTerm s.events t = some a) :
-    ∀ t ∈ closureOf inp nTasks (trace inp s), ∃ a, fstTerm s.events t = some a := by
-  have hstep := reported_closed hT h2 hsat
-  have once : ∀ cl : List Name, (∀ x ∈ cl, ∃ a, fstTerm s.events x = some a) →
-      ∀ x ∈ closeOnce inp nTasks (trace inp s) cl, ∃ a, fstTerm s.events x = some a := by
-    intro cl h
-    exact foldl_addNew_closed (E := edgesAt inp nTasks (trace inp s)) _ hstep cl cl h h
-  have iter : ∀ (k : Nat) (cl : List Name), (∀ x ∈ cl, ∃ a, fstTerm s.events x = some a) →
-      ∀ x ∈ closureIter inp nTasks (trace inp s) k cl, ∃ a, fstTerm s.events x = some a := by
-    intro k
-    induction k with
-    | zero => intro cl h x hx; exact h x hx
-    | succ k ih => intro cl h x hx; simp only [closureIter] at hx; exact ih _ (once cl h) x hx
-  unfold closureOf
-  refine iter _ _ ?_
-  intro x hx
-  rcases mem_addNew9.mp hx with e | e
-  · cases e
-  · exact hsel x e
+    ∀ t ∈ closureC09 inp nTasks (trace inp s), ∃ a, fstTerm s.events t = some a := by
+  have hstart : ∀ x ∈ addNew [] inp.sel, ∃ a, fstTerm s.events x = some a := by
+    intro x hx
+    rcases mem_addNew9.mp hx with e | e
+    · cases e
+    · exact hsel x e
+  unfold closureC09
+  exact closureGo_closed _ (reported_closed c hsat) _ _ _ hstart hstart
 
 /-- whatever `edgesAt` lists for a started task was reported finished before the start -/
-theorem started_edges_reported {s : Sys} (h2 : Inv2 inp s) (hG : InvG inp s) {nTasks : Nat} {t w : Nat}
-    (hs : Ev.start t w ∈ s.events) :
+theorem started_edges_reported {s : Sys} (c : CtxC inp s) {nTasks : Nat}
+    (hsat : CalcsSat inp nTasks (trace inp s)) {t w : Nat} (hs : Ev.start t w ∈ s.events) :
     ∀ d ∈ edgesAt inp nTasks (trace inp s) t, ∃ a, fstTerm s.events d = some a := by
   obtain ⟨pre, post, he⟩ := List.append_of_mem hs
-  have hd := start_after_depsAt h2 hG he nTasks (trace inp s)
-  intro d hmem
-  have hin : d ∈ depsAt inp nTasks (trace inp s) t := by
-    rw [edgesAt_eq] at hmem
-    simp only [stageAt, depsAt, List.mem_append] at hmem ⊢
-    rcases hmem with ((a | a) | a) | a
+  have hd := start_after_depsAt c.h2 c.hG he nTasks (trace inp s)
+  have fin : ∀ d ∈ depsAt inp nTasks (trace inp s) t, finBefore s.events d :=
+    fun d hin => finBefore_mono (fun e he' => by rw [he]; simp [he']) (hd d hin)
+  have hgoodS : ∀ x ∈ stageAt inp nTasks (trace inp s) t, (stOf s x).good = true := by
+    intro x hx
+    apply c.hT.ev x
+    apply fin
+    simp only [stageAt, depsAt, List.mem_append] at hx ⊢
+    rcases hx with (a | a) | a
     · exact Or.inl (Or.inl (Or.inl a))
     · exact Or.inl (Or.inr a)
     · exact Or.inr a
+  have hgood : ∀ p, CalcG inp (stOf s) t p → (stOf s p).good = true := fun p hp =>
+    hgoodS p (stageG_stageAt hsat (fun y hy => good_finishedIn c.h2 hy) (Or.inr (Or.inl hp)))
+  intro d hmem
+  have hin : d ∈ depsAt inp nTasks (trace inp s) t := by
+    rw [edgesAt_eq] at hmem
+    rcases List.mem_append.mp hmem with a | a
+    · have hG : StageG inp (stOf s) t d := (stageAtF_stageH (resOK_trace c) a).toG hgood
+      have := stageG_stageAt hsat (fun y hy => good_finishedIn c.h2 hy) hG
+      simp only [stageAt, depsAt, List.mem_append] at this ⊢
+      rcases this with (a | a) | a
+      · exact Or.inl (Or.inl (Or.inl a))
+      · exact Or.inl (Or.inr a)
+      · exact Or.inr a
     · split at a
-      · exact Or.inl (Or.inl (Or.inr a))
+      · simp only [depsAt, List.mem_append]; exact Or.inl (Or.inl (Or.inr a))
       · cases a
-  apply finBefore_fstTerm
-  exact finBefore_mono (fun e he' => by rw [he]; simp [he']) (hd d hin)
+  exact finBefore_fstTerm (fin d hin)
 
 /-- no task on a cycle of the closure graph is ever started -/
-theorem onCycle_never_started {s : Sys} (hT : InvT inp s) (h2 : Inv2 inp s) (hG : InvG inp s) {nTasks : Nat}
+theorem onCycle_never_started {s : Sys} (c : CtxC inp s) {nTasks : Nat}
     (hsat : CalcsSat inp nTasks (trace inp s)) {t : Name} (hc : onCycle inp nTasks (trace inp s) t = true) :
     s.events.countP (Ev.isStartOf t) = 0 := by
   apply Classical.byContradiction
@@ -273,60 +409,77 @@ theorem onCycle_never_started {s : Sys} (hT : InvT inp s) (h2 : Inv2 inp s) (hG 
   | start m w =>
     have hm : m = t := by simpa [Ev.isStartOf] using hp
     subst hm
-    have hedges := started_edges_reported (nTasks := nTasks) h2 hG he
+    have hedges := started_edges_reported (nTasks := nTasks) c hsat he
     have hc' := hc
-    unfold onCycle at hc'
+    unfold onCycle onCycleOf at hc'
     simp only [decide_eq_true_eq] at hc'
-    obtain ⟨a, ha⟩ := reachIter_closed (succ := edgesAt inp nTasks (trace inp s))
-      (fun x => ∃ a, fstTerm s.events x = some a) (reported_closed hT h2 hsat) nTasks _
-      (fun x hx => by
+    have hstart : ∀ x ∈ addNew [] (edgesAt inp nTasks (trace inp s) m), ∃ a, fstTerm s.events x = some a :=
+      fun x hx => by
         rcases mem_addNew9.mp hx with e | e
         · cases e
-        · exact hedges x e) m hc'
-    rw [reported_not_onCycle hT h2 hsat ha] at hc; cases hc
+        · exact hedges x e
+    obtain ⟨a, ha⟩ := closureGo_closed (succ := edgesAt inp nTasks (trace inp s))
+      (fun x => ∃ a, fstTerm s.events x = some a) (reported_closed c hsat) _ _ _ hstart hstart m hc'
+    rw [reported_not_onCycle c hsat ha] at hc; cases hc
   | _ => simp [Ev.isStartOf] at hp
 
 /-- a run whose selected tasks are all reported has an acyclic closure graph -/
-theorem cycleTasks_nil {s : Sys} (hT : InvT inp s) (h2 : Inv2 inp s) {nTasks : Nat}
+theorem cycleTasks_nil {s : Sys} (c : CtxC inp s) {nTasks : Nat}
     (hsat : CalcsSat inp nTasks (trace inp s)) (hsel : ∀ t ∈ inp.sel, ∃ a, fstTerm s.events t = some a) :
     cycleTasks inp nTasks (trace inp s) = [] := by
   apply List.eq_nil_iff_forall_not_mem.mpr
   intro t ht
   unfold cycleTasks at ht
   obtain ⟨h1, h3⟩ := List.mem_filter.mp ht
-  obtain ⟨a, ha⟩ := closure_reported hT h2 hsat hsel t h1
-  rw [reported_not_onCycle hT h2 hsat ha] at h3; cases h3
+  obtain ⟨a, ha⟩ := closure_reported c hsat hsel t h1
+  rw [reported_not_onCycle c hsat ha] at h3; cases h3
 
 theorem cycle_diagnosed_serial {s : Sys} (hr : Reach inp s) (nTasks : Nat)
     (hsat : CalcsSat inp nTasks (trace inp s)) :
     (s.rpc = .halted → s.halt = .none → s.stop = false → cycleTasks inp nTasks (trace inp s) = []) ∧
     (∀ t ∈ cycleTasks inp nTasks (trace inp s), s.events.countP (Ev.isStartOf t) = 0) := by
-  have hT := reach_invT hr
-  have h2 := reach_inv2 hr
+  have c := reach_ctxC hr
   refine ⟨?_, ?_⟩
   · intro hh hhalt hstop
-    apply cycleTasks_nil hT h2 hsat
+    apply cycleTasks_nil c hsat
     intro t ht
     exact fstTerm_some_of_cTerm (by
       have := all_processed_serial hr hh hhalt hstop t (RunCl.ofSel ht); omega)
   · intro t ht
     unfold cycleTasks at ht
-    exact onCycle_never_started hT h2 (reach_invG hr) hsat (List.mem_filter.mp ht).2
+    exact onCycle_never_started c hsat (List.mem_filter.mp ht).2
 
 theorem cycle_diagnosed_parallel {s : Sys} (hr : PReach inp s) (nTasks : Nat)
     (hsat : CalcsSat inp nTasks (trace inp s)) :
     (s.rpc = .halted → s.halt = .none → s.stop = false → cycleTasks inp nTasks (trace inp s) = []) ∧
     (∀ t ∈ cycleTasks inp nTasks (trace inp s), s.events.countP (Ev.isStartOf t) = 0) := by
-  have hT := preach_invT hr
-  have h2 := (preach_inv hr).1
+  have c := preach_ctxC hr
   refine ⟨?_, ?_⟩
   · intro hh hhalt hstop
-    apply cycleTasks_nil hT h2 hsat
+    apply cycleTasks_nil c hsat
     intro t ht
     exact fstTerm_some_of_cTerm (by
       have := all_processed_parallel hr hh hhalt hstop t (RunCl.ofSel ht); omega)
   · intro t ht
     unfold cycleTasks at ht
-    exact onCycle_never_started hT h2 (preach_invG hr) hsat (List.mem_filter.mp ht).2
+    exact onCycle_never_started c hsat (List.mem_filter.mp ht).2
+
+/-! ### the tabulated search of the driver computes `cycleTasks` -/
+
+theorem lookupSucc_table (succ : Name → List Name) (n : Nat) : lookupSucc (edgeTable succ n) succ = succ := by
+  funext x
+  unfold lookupSucc edgeTable
+  split
+  · simp
+  · rfl
+
+theorem cycleTasksFast_eq (inp : RunInput) (nTasks : Nat) (tr : List Ev) :
+    cycleTasksFast inp nTasks tr = cycleTasks inp nTasks tr := by
+  unfold cycleTasksFast cycleTasks closureC09 onCycle
+  simp only [lookupSucc_table]
+
+theorem monC09On_eq (inp : RunInput) (nTasks : Nat) (tr : List Ev) (o : C09Obs) :
+    monC09On (cycleTasksFast inp nTasks tr) inp tr o = monC09 inp nTasks tr o := by
+  rw [cycleTasksFast_eq]; rfl
 
 end DoitModel.Run
